@@ -16,6 +16,12 @@ again and the observable state is recorded:
 * ``["snipe", i, r]``               open ``r``'s gate and hard-cancel the waiter its release wakes,
                                     before that waiter's task is stepped
 * ``["drop", i]``                   forget instance ``i`` (only when it has no live run) and collect
+* ``["nstart", pi, pr, j, how]``    NESTED start: the step of run ``pr`` of instance ``pi`` (which is executing,
+                                    i.e. inside its run slot) calls ``wf_j.run(...)`` itself.  ``how`` = ``"ff"``
+                                    (fire and forget), ``"task"`` (a task spawned by the step makes the call),
+                                    ``"await"`` (the step then waits for that run to end before it goes on).
+                                    The new run gets the next run id of instance ``j`` at the moment of the call
+                                    (run ids are the order of the ``run()`` calls)
 * ``["multi", [op, ...]]``          several of the above at the *same* quiescent point
 
 The recorded state per instance: semaphore value (``-`` when the weak registry has no
@@ -80,6 +86,13 @@ class Live:
         self.soft: set = set()
         self.implicit: set = set()             # waiting runs cancelled by an expired cancel_run()
         self.dropped: set = set()
+        # nested starts: commands handed to executing steps, what each step waits for, who started whom
+        self.cmds: dict[tuple, list] = {}      # (i,r) -> [(j, how), ...] not yet performed by the step of (i,r)
+        self.pending_cmds = 0
+        self.awaiting: dict[tuple, tuple] = {}  # (i,r) -> (j,c): the step of (i,r) waits for run (j,c) to end
+        self.nested: dict[tuple, tuple] = {}   # (j,c) -> (pi,pr,how): run (j,c) was started from the step of (pi,pr)
+        self.bg: list = []                     # tasks spawned by steps (kept referenced)
+        self.launch: Callable[[int, int, int, str], Any] | None = None
         self.loop: VLoop | None = None
         self._q: asyncio.Future | None = None
         self._advance = False
@@ -96,7 +109,31 @@ class Live:
                 live.entered.add((i, r))
                 live.executing[i].append(r)
                 try:
-                    await live.gates[(i, r)].wait()
+                    while True:
+                        await live.gates[(i, r)].wait()
+                        cmds = live.cmds.get((i, r))
+                        if cmds:
+                            # a nested start: this step itself (or a task it spawns) calls run()
+                            j, how = cmds.pop(0)
+                            if how == "task":
+                                async def _bg(j: int = j, how: str = how) -> None:
+                                    live.launch(i, r, j, how)  # type: ignore[misc]
+
+                                live.bg.append(asyncio.ensure_future(_bg()))
+                            else:
+                                made = live.launch(i, r, j, how)  # type: ignore[misc]
+                                if how == "await" and made is not None:
+                                    live.awaiting[(i, r)] = made[0]
+                                    try:
+                                        # (not `await task`: cancelling this step must not cancel the child)
+                                        await asyncio.wait({made[1]})
+                                    finally:
+                                        live.awaiting.pop((i, r), None)
+                                made = None
+                            continue
+                        if (i, r) in live.modes:
+                            break
+                        live.gates[(i, r)].clear()
                     if live.modes.get((i, r)) == "fail":
                         raise Boom(f"run {i}.{r}")
                     return StopEvent(result=r)
@@ -236,6 +273,38 @@ def run_scenario(sc: dict, chooser: Callable[[Live, int], Any] | None = None, ma
 
     classes = live.classes()
 
+    def register(i: int, r: int, h: Any) -> Any:
+        live.handlers[(i, r)] = h
+        t = h._external_adapter._queues.complete
+        live.tasks[(i, r)] = t
+        live.events.append(("start", i, r, live.loop.time()))  # type: ignore[union-attr]
+        t.add_done_callback(lambda _t, i=i, r=r: live.events.append(("taskdone", i, r, live.loop.time())))  # type: ignore[union-attr]
+        return t
+
+    def launch(pi: int, pr: int, j: int, how: str) -> Any:
+        """called from inside the step of run (pi,pr), or from a task that step spawned"""
+        live.pending_cmds -= 1
+        wf = live.insts.get(j)
+        if wf is None:
+            errors.append(f"nested start from {pi}.{pr}: instance {j} does not exist")
+            return None
+        live.nruns[j] += 1
+        c = live.nruns[j]
+        live.gates[(j, c)] = asyncio.Event()
+        live.nested[(j, c)] = (pi, pr, how)
+        try:
+            h = wf.run(start_event=GateStart(rid=c))
+        except Exception as e:
+            errors.append(f"nested start from {pi}.{pr}: run() of instance {j} raised {type(e).__name__}: {e}")
+            live.nruns[j] -= 1
+            live.nested.pop((j, c))
+            return None
+        t = register(j, c, h)
+        emit(f"nstart {pi} {pr} {j} {c}", "ok")
+        return (j, c), t
+
+    live.launch = launch
+
     def do_simple(op: list, post: list) -> None:
         """perform one external action now; `post` collects what to do after quiescence"""
         kind = op[0]
@@ -259,12 +328,19 @@ def run_scenario(sc: dict, chooser: Callable[[Live, int], Any] | None = None, ma
             r = live.nruns[i]
             live.gates[(i, r)] = asyncio.Event()
             h = live.insts[i].run(start_event=GateStart(rid=r))
-            live.handlers[(i, r)] = h
-            t = h._external_adapter._queues.complete
-            live.tasks[(i, r)] = t
-            live.events.append(("start", i, r, live.loop.time()))  # type: ignore[union-attr]
-            t.add_done_callback(lambda _t, i=i, r=r: live.events.append(("taskdone", i, r, live.loop.time())))  # type: ignore[union-attr]
+            register(i, r, h)
             emit(f"start {i} {r}", "ok")
+        elif kind == "nstart":
+            _, pi, pr, j, how = op
+            if how not in ("ff", "task", "await"):
+                raise ValueError(f"unknown nested start mode {how!r}")
+            if pr not in live.executing.get(pi, []) or (pi, pr) in live.awaiting:
+                # the step that should make the call is not there (or is blocked on a child): nothing happens
+                post.append(("nstart_skipped", pi, pr, j))
+            else:
+                live.cmds.setdefault((pi, pr), []).append((j, how))
+                live.pending_cmds += 1
+                live.gates[(pi, pr)].set()
         elif kind == "open":
             _, i, r, mode = op
             live.modes[(i, r)] = mode
@@ -282,7 +358,10 @@ def run_scenario(sc: dict, chooser: Callable[[Live, int], Any] | None = None, ma
             _, i, r = op
             live.modes[(i, r)] = "ok"
             live.gates[(i, r)].set()
-            arm_spy(i, r, post)
+            # (a replayed op list may name a run that is not in its step on THIS implementation: its task would
+            # never end and the spy would keep the loop busy for ever -- then it is a plain open)
+            if r in live.executing.get(i, []):
+                arm_spy(i, r, post)
         elif kind == "drop":
             i = op[1]
             for key in [k for k in live.handlers if k[0] == i]:
@@ -297,10 +376,13 @@ def run_scenario(sc: dict, chooser: Callable[[Live, int], Any] | None = None, ma
     def arm_spy(i: int, r: int, post: list) -> None:
         loop = live.loop
         target_task = live.tasks[(i, r)]
-        state: dict[str, Any] = {"fired": None}
+        state: dict[str, Any] = {"fired": None, "spins": 0}
         post.append(("snipe", i, r, state))
 
         def spy() -> None:
+            state["spins"] += 1
+            if state["spins"] > 20000:  # safety net: never keep the loop from becoming quiescent
+                return
             sem = live.sem_of(i)
             if sem is not None and sem._waiters:
                 for fut in sem._waiters:
@@ -335,6 +417,10 @@ def run_scenario(sc: dict, chooser: Callable[[Live, int], Any] | None = None, ma
         else:
             do_simple(op, post)
         await live.quiesce()
+        if live.pending_cmds:
+            errors.append(f"{live.pending_cmds} nested start(s) of op {op!r} were not performed by their step")
+            live.pending_cmds = 0
+            live.cmds.clear()
         live.note_done()
         # the registry is weak: collect before looking at it (tracebacks of failed runs form cycles)
         gc.collect()
@@ -374,6 +460,8 @@ def run_scenario(sc: dict, chooser: Callable[[Live, int], Any] | None = None, ma
         snaps.append({"op": op, "state": impl_out[-1], "obs": live.obs(),
                       "done": [[k[0], k[1], live.outcome[k]] for k in newly],
                       "sniped": {f"{k[0]}.{k[1]}": v["fired"] for k, v in sniped.items()},
+                      "skipped": [list(p[1:]) for p in post if p[0] == "nstart_skipped"],
+                      "awaiting": {f"{k[0]}.{k[1]}": list(v) for k, v in live.awaiting.items()},
                       "ev": [ev0, len(live.events)]})
 
     async def main(loop: VLoop) -> None:
@@ -399,7 +487,7 @@ def run_scenario(sc: dict, chooser: Callable[[Live, int], Any] | None = None, ma
             "cfg": {i: dict(c) for i, c in live.cfg.items()}, "ops_concrete": concrete,
             "outcome": {f"{k[0]}.{k[1]}": v for k, v in live.outcome.items()},
             "hard": sorted(live.hard), "soft": sorted(live.soft), "entered": sorted(live.entered),
-            "nruns": dict(live.nruns)}
+            "nruns": dict(live.nruns), "nested": {f"{k[0]}.{k[1]}": list(v) for k, v in live.nested.items()}}
 
 
 # --------------------------------------------------------------------------
